@@ -343,6 +343,21 @@ func (s *jsession) exec(op string) string {
 		}
 		s.stop()
 		s.stopped = true
+		if s.busy != nil {
+			// the select that awaits the release takes the stop branch at once; wait for it, so
+			// that nothing races with the following requests, and mask what it may or may not
+			// have changed yet (the model does the same); `stopseen` compares it
+			select {
+			case <-s.busy:
+			case <-time.After(5 * time.Second):
+				s.fail("C16 v1 join: the send awaiting the release did not return within 5s after Stop/cancel")
+			}
+			snap := s.snapshot()
+			if k := strings.Index(snap, " unrel="); k >= 0 {
+				snap = snap[:k] + " unrel=* pa=*"
+			}
+			return snap
+		}
 	case "stopseen":
 		if s.stop == nil || !s.stopped {
 			return "bad-op"
